@@ -156,6 +156,32 @@ def c10_history(expr, cls="Selector", order="a then b", x=0, s=""):
     return {"violates": after != fresh, "after": after, "fresh": fresh}
 
 
+REF_CASES = [
+    ("(r.n, r.s) in [(r.other, 'a'), (1, 'b')]", [("varint", "n"), ("string", "s"), ("varint", "other")], {"n": 5, "s": "a", "other": 5}, [("varint", "n"), ("string", "s"), ("varint", "other")], {"n": 5, "s": "a", "other": 6}, False),
+    ("(r.n, r.s) in [(r.other, 'a'), (1, 'b')]", [("varint", "n"), ("string", "s"), ("varint", "other")], {"n": 5, "s": "a", "other": 7}, [("varint", "n"), ("string", "s"), ("varint", "other")], {"n": 6, "s": "a", "other": 6}, True),
+    ("r.n in [0, (r.other,), r.other]", [("varint", "n"), ("varint", "other")], {"n": 1, "other": 1}, [("varint", "n"), ("varint", "other")], {"n": 1, "other": 2}, False),
+    ("str(lower(r.v)) == '1'", [("boolean", "v")], {"v": True}, [("varint", "v")], {"v": 1}, True),
+    ("str(upper(r.v)) == 'True'", [("varint", "v")], {"v": 1}, [("boolean", "v")], {"v": True}, True),
+    ("str(lower(r.v)) == '1.0'", [("varint", "v")], {"v": 1}, [("float", "v")], {"v": 1.0}, True),
+    ("lower(r.v) == 'ab'", [("string", "v")], {"v": "AB"}, [("string", "v")], {"v": "Ab"}, True),
+    ("upper(r.v) in ['X', r.w]", [("string", "v"), ("string", "w")], {"v": "q", "w": "Q"}, [("string", "v"), ("string", "w")], {"v": "q", "w": "Z"}, False),
+]
+
+
+def c10_history_value(case=0, cls="Selector"):
+    from flow.record import RecordDescriptor
+    from flow.record import selector as S
+
+    expr, f1, v1, f2, v2, want = REF_CASES[case]
+    R1 = RecordDescriptor("c10/h1", f1)
+    R2 = RecordDescriptor("c10/h2" if f1 != f2 else "c10/h1", f2)
+    s1 = getattr(S, cls)(expr)
+    _safe_match(s1, R1(**v1))
+    got = _safe_match(s1, R2(**v2))
+    ok = got == ("ok", want) or got == want or (isinstance(got, tuple) and got[-1] is want)
+    return {"violates": not ok, "detail": None if ok else f"{expr!r}: the record {v2} matched after {v1} gives {got}, its own values give {want}"}
+
+
 def c10_frame(expr, cls="Selector"):
     from flow.record import selector as S
 
@@ -241,4 +267,4 @@ def c10_model_conformance():
     return {"ok": True, "cases": 3, "violates": False}
 
 
-CALLS = {"c10_equiv": c10_equiv, "c10_sweep": c10_sweep, "c10_reader": c10_reader, "c10_history": c10_history, "c10_frame": c10_frame, "c10_make": c10_make, "c10_model_conformance": c10_model_conformance}
+CALLS = {"c10_history_value": c10_history_value, "c10_equiv": c10_equiv, "c10_sweep": c10_sweep, "c10_reader": c10_reader, "c10_history": c10_history, "c10_frame": c10_frame, "c10_make": c10_make, "c10_model_conformance": c10_model_conformance}
